@@ -27,7 +27,7 @@ RULE = ("embedded: ytk, ptk, cidar, ecoflex, plant - every item (exhaustive, 362
         "directories sharing ids with them, and nested combinations of these. Non-trivial = a registry with >= 1 key whose every item was looked up, or a combination with a shared id; "
         "distinct = distinct registry contents.")
 ASSUMPTIONS = ["directory entries that are typed GenBank plasmids have pairwise distinct stems", "the eLabFTW (network) registry is out of scope"]
-FLOORS = {"c20_aborted_loads": 4, "c20_items_checked": 400, "c20_absent_keys_checked": 300, "c20_directories": 40, "c20_combinations": 30, "c20_shared_id_checks": 20, "c20_embedded_registries": 5}
+FLOORS = {"c20_regrown_members": 10, "c20_aborted_loads": 4, "c20_items_checked": 400, "c20_absent_keys_checked": 300, "c20_directories": 40, "c20_combinations": 30, "c20_shared_id_checks": 20, "c20_embedded_registries": 5}
 MUST_REACH = ["EmbeddedRegistry.__iter__", "EmbeddedRegistry.__len__", "FilesystemRegistry.__getitem__", "CombinedRegistry.add_registry", "find_resistance"]
 NEEDS_REGISTRIES = True
 BUDGET_S = {"quick": 900, "thorough": 7200}
@@ -200,7 +200,8 @@ def _emb(name):
     return _emb_cache[name]
 
 
-STEMS = ["{k}", "{k}.v2", "x-{k}", "{k}_copy", "a b {k}", "{k}.gb", "é{k}", "{k}-1.2.3", "{k}_1kb", "{k}_big", "{k}.", "{k}k", "gb{k}g"]
+STEMS = ["{k}", "{k}.v2", "x-{k}", "{k}_copy", "a b {k}", "{k}.gb", "é{k}", "{k}-1.2.3", "{k}_1kb", "{k}_big", "{k}.", "{k}k", "gb{k}g",
+         "{k} [reversed]", "{k}[12]", "{k}(copy)", "{k}!", "{k}#2"]
 GOOD_EXT = ["gb", "gbk"]
 BAD_EXT = ["gbff", "txt", "fasta", "GB", "gb.bak", "genbank"]
 
@@ -337,6 +338,10 @@ def execute(mat, ctx):
                 f.write("hello")
             with F.open("notes", "w") as f:
                 f.write("no extension")
+            for stem in list(expect)[:3]:
+                # keys that only differ from a real stem by a wildcard metacharacter must not find it
+                absent += [(stem[:-1] + "?", "wildcard-key"), (stem[:2] + "*", "wildcard-key"), ("[" + stem[0] + "]" + stem[1:], "wildcard-key")]
+            absent += [("*", "wildcard-key"), ("?" * 7, "wildcard-key")]
             absent += [("sub", "sub-directory"), ("dir", "sub-directory"), ("dir.gb", "sub-directory"), ("README", "junk-file"), ("notes", "junk-file"),
                        ("inner", "file-in-sub-directory"), ("sub/inner", "path-into-sub-directory"), ("dir.gb/deep", "path-into-sub-directory"),
                        ("../outside", "parent-reference"), ("/sub/inner", "path-into-sub-directory")]
@@ -393,7 +398,8 @@ def execute(mat, ctx):
         members.append(R)
     C = rb.CombinedRegistry()
     member_keys = []
-    for R in members:
+
+    def add(R):
         if rng.random() < 0.5:
             C << R
         else:
@@ -402,6 +408,32 @@ def execute(mat, ctx):
         for k in member_keys[-1]:
             if k not in model:
                 model[k] = str(R[k].entity.record.seq)
+
+    for R in members:
+        add(R)
+    # a member that grows after it was added, then is added again: the union is taken at the time of each addition
+    if rng.random() < 0.5:
+        grown = rb.CombinedRegistry()
+        grown << _emb(rng.choice(["ptk", "plant"]))
+        add(grown)
+        grown << _emb(rng.choice(["ytk", "cidar", "ecoflex"]))
+        add(grown)
+        descr.append("combined-that-grew-and-was-added-again")
+        ctx.count("c20_regrown_members")
+    if rng.random() < 0.4:
+        pbase, rname, recs = pool[rng.randrange(len(pool))]
+        F = fs.open_fs("mem://")
+        F_keep.append(F)
+        two = rng.sample(recs, 2)
+        with F.open("grow_%s.gb" % two[0][0], "w") as f:
+            f.write(gb_text(two[0][1]))
+        D = rb.FilesystemRegistry(F, pbase)
+        add(D)
+        with F.open("grow_%s.gb" % two[1][0], "w") as f:
+            f.write(gb_text(two[1][1]))
+        add(D)
+        descr.append("directory-that-grew-and-was-added-again")
+        ctx.count("c20_regrown_members")
     ctx.count("evaluations")
     ctx.count("c20_combinations")
     wit = {"members": descr}
